@@ -69,6 +69,10 @@ StringForms == << [lit |-> "\"hi\"", bytes |-> <<104, 105>>],
                   [lit |-> "\"a\\\\b\"", bytes |-> <<97, 92, 98>>],
                   [lit |-> "\"a\\nb\"", bytes |-> <<97, 10, 98>>],
                   [lit |-> "\"t\\tz\"", bytes |-> <<116, 9, 122>>],
+                  [lit |-> "\"100% sure\"", bytes |-> <<49,48,48,37,32,115,117,114,101>>],
+                  [lit |-> "\"%d of %s\"", bytes |-> <<37,100,32,111,102,32,37,115>>],
+                  [lit |-> "\"50%% off\"", bytes |-> <<53,48,37,37,32,111,102,102>>],
+                  [lit |-> "\"{}[];=->\"", bytes |-> <<123,125,91,93,59,61,45,62>>],
                   [lit |-> "\"// not a comment /* */\"", bytes |-> <<47,47,32,110,111,116,32,97,32,99,111,109,109,101,110,116,32,47,42,32,42,47>>] >>
 StringConsts == [j \in 1..Len(StringForms) |->
    [item |-> Co("string", Nm("Cs", 0, j), StringForms[j].lit),
